@@ -185,6 +185,16 @@ def execute(op, env: Env):
         return copy.deepcopy(build(op[1], env))
     if f == "pickle":
         return pickle.loads(pickle.dumps(build(op[1], env), op[2] if len(op) > 2 else pickle.HIGHEST_PROTOCOL))
+    if f == "dumps":
+        return pickle.dumps(build(op[1], env), op[2] if len(op) > 2 else pickle.HIGHEST_PROTOCOL)
+    if f == "eqpair":
+        # (copy == original, original == copy, hash equal where hashable)
+        a, b = build(op[1], env), build(op[2], env)
+        try:
+            h = hash(a) == hash(b)
+        except TypeError:
+            h = None
+        return [a == b, b == a, h]
     if f == "build":
         return build(op[1], env)
     if f == "rebuild":
